@@ -175,11 +175,16 @@ def drive_patterned(args):
     # (a PhysicalAxis is only a name; inside multi_solve blocks created by fill-in share the axes of their factors)
     shared = i % 2 == 1
     pool = PT.Pool(rng, 0.5, 1) if shared else None
-    sa = PT.gen_pattern(rng, [T, T], default=ZERO[kind], start_id=1, pool=pool)
+    # (every fourth case: a default that is NOT the semiring zero -- the positions outside the sparsity pattern then
+    #  carry weight too, and the pattern of the solution has to be computed from the tensors as they are denoted)
+    nzd = i % 4 == 2
+    da = rng.choice(vals) if nzd and rng.random() < 0.7 else ZERO[kind]
+    db = rng.choice(vals) if nzd and rng.random() < 0.7 else ZERO[kind]
+    sa = PT.gen_pattern(rng, [T, T], default=da, start_id=1, pool=pool)
     sa['ph'] = [rng.choice(vals) for _ in sa['ph']]
-    sb = PT.gen_pattern(rng, [T, U] if twod else [T], default=ZERO[kind], start_id=50, pool=pool)
+    sb = PT.gen_pattern(rng, [T, U] if twod else [T], default=db, start_id=50, pool=pool)
     sb['ph'] = [rng.choice(vals) for _ in sb['ph']]
-    tagx = ['shared_axes'] if shared else []
+    tagx = (['shared_axes'] if shared else []) + (['nonzero_default'] if nzd else [])
     if i % 6 == 5:
         # the "swap" matrix a[(p,q),(q,p)] = w[p,q] against b[(p,0)] (one-hot second component), b naming a's axis k or not
         m = rng.choice([2, 3])
